@@ -121,7 +121,12 @@ func Load(dir string, patterns []string, env []string) ([]*Pkg, *token.FileSet, 
 		}
 		var fes []fe
 		for _, f := range p.Syntax {
-			fes = append(fes, fe{f, fset.Position(f.Package).Filename})
+			// the real file name, not the //line-adjusted one
+			name := fset.Position(f.Package).Filename
+			if tf := fset.File(f.Package); tf != nil {
+				name = tf.Name()
+			}
+			fes = append(fes, fe{f, name})
 		}
 		sort.SliceStable(fes, func(i, j int) bool { return fes[i].p < fes[j].p })
 		for _, x := range fes {
